@@ -2,9 +2,14 @@
   RdfModel.Model.JsonLdContext — executable model of the JSON-LD context machinery of /repo
   (encoding/jsonld/internal/jsonldinternal), function by function, as coded:
 
-    * `iriExpandBody` / `iriExpandStr` / `iriExpand`   algorithm_iri_expansion.go  `algorithmIRIExpansion.Call`
-    * `ctdBody` / `ctd`                                algorithm_create_term_definition.go `algorithmCreateTermDefinition.Call`
-    * `processBody` / `processCtx`                     algorithm_context_processing.go `algorithmContextProcessing.Call`
+    * `iriExpandBody` (steps 1–5) + `iriExpandRest` (6–9: `suppressCyclic`, `expandTail`) / `iriExpandStr` / `iriExpand`
+                                                       algorithm_iri_expansion.go  `algorithmIRIExpansion.Call`
+    * `ctdBody` (with one function per step: `typeTermStep`, `normalizeValue`, `protectedStep`, `typeStep`,
+      `reverseStep`, `iriStep`, `containerStep`, `containerTypeStep`, `indexExpand`, `languageStep`, `directionStep`,
+      `nestStep`, `prefixStep`, `keysStep`) / `ctd`    algorithm_create_term_definition.go `algorithmCreateTermDefinition.Call`
+    * `processBody` / `processItem` / `processObj` (`versionStep`, `importStep`, `baseStep`, `vocabStep`, `langStep`,
+      `dirStep`, `propagateStep`, `termsStep`) / `processCtx`
+                                                       algorithm_context_processing.go `algorithmContextProcessing.Call`
     * `Context`, `Core`, `TermDef`, `clone`, `TermDef.equals`   context.go, term_definition.go
 
   Conventions
@@ -15,7 +20,8 @@
     * the three algorithms are mutually recursive in Go; here every algorithm is a non-recursive `…Body`
       taking the other algorithms as callbacks, and the mutual block `iriExpandStr`/`ctd`/`processCtx`
       ties the knot by structural recursion on a fuel counter (one unit per Go call of `.Call()`).
-      Running out of fuel is the explicit outcome `fuel`; `fuelFor` is the amount the driver supplies.
+      Running out of fuel is the explicit outcome `fuel`; `fuelFor` is the amount the driver supplies
+      (proved sufficient: Props/C10Ctx.ctx_fuel_sufficient).
     * CreateTermDefinition mutates the active context and `defined` in place and IRI expansion continues
       after a suppressed `cyclic IRI mapping` error, so an error outcome carries the mutated state.
     * `iri.ParsedIRI` is a parameter (`IriOps P`): `ParseIRI`, `IsAbs`, `ResolveReference`, `String`, and
@@ -235,6 +241,12 @@ def expandTail {P : Type} (ops : IriOps P) (c : Core P) (st : St P) (s : Str) (d
       | .panic => .panic
     | none => .ok (.iri s) st
 
+/-- the suppression of a `cyclic IRI mapping` error of a nested Create Term Definition (steps 3 and 6.3 as
+    coded): processing goes on with the state the failed call left behind -/
+def suppressCyclic {P : Type} (keep : St P → Bool) : Res P Unit → Res P Unit
+  | .err e st' => if e == .cyclicIRIMapping && keep st' then .ok () st' else .err e st'
+  | r => r
+
 /-- steps 6–9 of IRI expansion -/
 def iriExpandRest {P : Type} (ops : IriOps P) (ctdCb : St P → Str → Res P Unit)
     (loc : Option (List (Str × Json))) (st : St P) (s : Str) (docRel vocab : Bool) : Res P SIri :=
@@ -248,10 +260,7 @@ def iriExpandRest {P : Type} (ops : IriOps P) (ctdCb : St P → Str → Res P Un
         match loc with
         | some ms =>
           if hasKey p ms && !(mget p st.defined == some true) then
-            match ctdCb st p with
-            | .err e st' =>
-              if e == .cyclicIRIMapping && !(mget p st'.defined == some false) then .ok () st' else .err e st'
-            | r => r
+            suppressCyclic (fun st' => !(mget p st'.defined == some false)) (ctdCb st p)
           else .ok () st
         | none => .ok () st
       r63.bind fun _ st =>
@@ -280,10 +289,7 @@ def iriExpandBody {P : Type} (ops : IriOps P) (ctdCb : St P → Str → Res P Un
       match loc with
       | some ms =>
         if hasKey s ms && !(mget s st.defined == some true) then
-          match ctdCb st s with
-          | .err e st' =>
-            if e == .cyclicIRIMapping && mget s st'.defined == some false then .ok () st' else .err e st'
-          | r => r
+          suppressCyclic (fun st' => mget s st'.defined == some false) (ctdCb st s)
         else .ok () st
       | none => .ok () st
     r3.bind fun _ st =>
